@@ -2,6 +2,7 @@
 """seeded_matrix.py [ids...] — for every confirmed seeded change: apply it to /repo, run the quick check of its property,
 undo it straight afterwards; writes seeded/MATRIX.md (which check reports what)."""
 import json, os, subprocess, sys, glob
+os.environ["VERIF_SCRATCH"] = "1"     # runs against changed trees do not overwrite the evidence of record
 V = "/verif"
 ids = sys.argv[1:] or sorted(os.path.basename(d) for d in glob.glob(V + "/seeded/C*"))
 rows = []
